@@ -1208,4 +1208,10 @@ Proof.
         * rewrite map_map. etransitivity; [|exact S2]. f_equal.
           apply (amap_ext_Forall (ais_fixed true)); [apply aiter_range_shape|].
           intros [i bb|i vv|[i|] xs|i ddd] Hsh; try contradiction; try discriminate.
+          unfold amk; cbn [aobject_bytes snd afixed_bytes oh_g oh_v]. rewrite Hf, Hww. reflexivity.
+      + intros s c E. inversion E; subst. lia.
+    - destruct Hr as [Hz [dd [Hp Hn]]]. subst p. aunf. split.
+      + replace (b - a + 1) with (N.of_nat (N.to_nat (b - a + 1))) at 2 4 by lia.
+        destruct (aiter_rbytes_spec v (N.to_nat (b - a + 1)) (N.to_nat (b - a + 1)) a dd) as [S1 [S2 _]]; try lia.
+        split.
           Show.
